@@ -13,6 +13,7 @@ import GM.Proof.RenderWF.Tokenize
 import GM.Proof.RenderWF.Panic
 import GM.Props.Attribute
 import GM.Props.ConvertE2E
+import GM.Props.Consts.Render
 
 namespace GM.Props.C03
 open GM GM.Spec
@@ -142,5 +143,10 @@ theorem block_store_heading_levels : type_of% @GM.Props.ConvertE2E.block_store_h
     it (the inline clauses — CodeSpan children are Text, no bookkeeping node, no attributes, no String / table node —
     come from the shape theorem of the inline phase, `GM.Props.Inlines.codespan_holds_text` & co.). -/
 theorem store_inv_gives_tree_inv : type_of% @GM.Props.ConvertE2E.store_inv_gives_tree_inv := @GM.Props.ConvertE2E.store_inv_gives_tree_inv
+
+/-- (package consts) every literal the node renderers write, and the constants the renderer model names, are the model's -/
+theorem consts_rendered_literals_tied : GM.Spec.Consts.allOk GM.Spec.Consts.renderedLiterals = true := GM.Props.Consts.Render.rendered_literals_tied
+/-- (package consts) package constants for which a model has its own definition (incl. bufio's 4096) have the model's value -/
+theorem consts_named_constants_tied : GM.Spec.Consts.allOk GM.Spec.Consts.namedConstants = true := GM.Props.Consts.Render.named_constants_tied
 
 end GM.Props.C03
